@@ -2,7 +2,7 @@
 """Systematic self-validation of a check: generate first-order mutants of the anchored gallia code, run the check's quick tier
 against each on a scratch copy (never /repo), and list the survivors.
 
-usage: tools/mutscan.py <ID> --files <path under /repo>[,<path>...] [--scope REGEX] [--ops cmp,bool,not,const,cond,del,loop]
+usage: tools/mutscan.py <ID> --files <path under /repo>[,<path>...] [--scope REGEX] [--ops cmp,bool,not,const,cond,del,loop,with]
                         [--max N] [--seed S] [--jobs J] [--tier quick] [--out FILE] [--baseline]
 
 --scope     only nodes inside a def/class whose dotted name matches REGEX (default: everything in the file)
@@ -134,6 +134,15 @@ def gen_mutants(src: str, scope: re.Pattern[str] | None, ops: set[str]) -> list[
             add(node, "pass", "del", f"delete {type(node).__name__}")
         if "del" in ops and isinstance(node, ast.Return) and node.value is not None and not (isinstance(node.value, ast.Constant) and node.value.value is None):
             add(node, "return None", "del", "return None")
+        if "with" in ops and isinstance(node, (ast.With, ast.AsyncWith)) and node.body:
+            # drop the context manager (lock, timeout scope, ...) but keep the body
+            a = starts[node.lineno - 1] + node.col_offset
+            b = starts[node.body[0].lineno - 1] + node.body[0].col_offset
+            header = bsrc[a:b].decode()
+            i = header.rfind(":")
+            if i > 0:
+                muts.append({"op": "with", "line": node.lineno, "scope": qn.get(node, ""), "old": header[: i + 1][:160], "new": "if True:", "a": a, "b": a + len(header[:i].encode()),
+                             "repl": "if True", "desc": "drop context manager"})
         if "loop" in ops and isinstance(node, ast.Break):
             add(node, "continue", "loop", "break->continue")
         if "loop" in ops and isinstance(node, ast.Continue):
@@ -203,7 +212,7 @@ def main() -> int:
     ap.add_argument("pid")
     ap.add_argument("--files", required=True)
     ap.add_argument("--scope", default=None)
-    ap.add_argument("--ops", default="cmp,bool,not,const,cond,del,loop")
+    ap.add_argument("--ops", default="cmp,bool,not,const,cond,del,loop,with")
     ap.add_argument("--max", type=int, default=0)
     ap.add_argument("--seed", type=int, default=0)
     ap.add_argument("--jobs", type=int, default=4)
